@@ -285,8 +285,10 @@ Definition s_read (n : Z) (s : istream) : list Z * istream :=
     let n' := if short then s_size s - s_pos s else n in
     let '(got, (b, a)) := if (n' <=? 0) || (s_pos s <? 0) then ([], (s_before s, s_after s))
                           else zip_take (Z.to_nat n') (s_before s) (s_after s) in
+    (* the state reflects this read; a zero-length read inside the stream leaves it as it was *)
+    let keep := negb short && (n <=? 0) in
     (got, {| s_before := b; s_after := a; s_cur := s_cur s + zlen got; s_pos := s_pos s + zlen got; s_size := s_size s;
-             s_good := negb short; s_eof := short; s_sticky := false |}).
+             s_good := if keep then s_good s else negb short; s_eof := if keep then s_eof s else short; s_sticky := false |}).
 
 Definition s_seek (off : Z) (s : istream) : istream :=
   if s_sticky s then
